@@ -28,10 +28,30 @@ class Ob(dict):
                          case=case, nontrivial=bool(nontrivial), t=float(t), **kw)
 
 
+class _TaskTimeout(Exception):
+    pass
+
+
+def _alarm(signum, frame):
+    raise _TaskTimeout()
+
+
 def _run_task(task):
-    """task = (modname, funcname, case).  Returns list[Ob]; never raises."""
+    """task = (modname, funcname, case).  Returns list[Ob]; never raises.  A task that exceeds VERIF_TASK_TIMEOUT_S or the
+    address-space limit of its worker ends as a checker error (exit 3), never as a verdict."""
     modname, funcname, case = task
     t0 = time.time()
+    limit = int(os.environ.get('VERIF_TASK_TIMEOUT_S', '2400'))
+    armed = False
+    try:
+        import signal
+        import threading
+        if limit > 0 and threading.current_thread() is threading.main_thread():
+            signal.signal(signal.SIGALRM, _alarm)
+            signal.alarm(limit)
+            armed = True
+    except Exception:
+        armed = False
     try:
         mod = importlib.import_module(modname)
         out = getattr(mod, funcname)(case)
@@ -42,22 +62,92 @@ def _run_task(task):
             if not o.get('t'):
                 o['t'] = (time.time() - t0) / max(1, len(obs))
         return obs
-    except Exception:
+    except BaseException as e:
+        if isinstance(e, KeyboardInterrupt):
+            raise
+        what = 'timeout after %d s' % limit if isinstance(e, _TaskTimeout) else 'crash'
         return [Ob('%s.%s' % (modname, funcname), case.get('backend', 'T3') if isinstance(case, dict) else 'T3', ERR,
-                   sig='crash', detail=traceback.format_exc()[-3000:], case=case, t=time.time() - t0)]
+                   sig=what, detail=traceback.format_exc()[-3000:], case=case, t=time.time() - t0)]
+    finally:
+        if armed:
+            signal.alarm(0)
+
+
+def _init_worker():
+    """Per-worker address-space cap: a runaway case raises MemoryError inside the task (reported as a checker error)
+    instead of being OOM-killed, which would lose the task silently."""
+    try:
+        import resource
+        gb = float(os.environ.get('VERIF_WORKER_MEM_GB', '10'))
+        if gb > 0:
+            lim = int(gb * (1 << 30))
+            resource.setrlimit(resource.RLIMIT_AS, (lim, lim))
+    except Exception:
+        pass
+
+
+def _isolated_child(task, conn):
+    _init_worker()
+    try:
+        conn.send(_run_task(task))
+    finally:
+        conn.close()
+
+
+def _run_isolated(task):
+    """One task in its own forked process; a process that dies without an answer is a checker error for that task."""
+    ctx = mp.get_context('fork')
+    a, b = ctx.Pipe(duplex=False)
+    p = ctx.Process(target=_isolated_child, args=(task, b))
+    p.start()
+    b.close()
+    res = None
+    try:
+        res = a.recv()
+    except EOFError:
+        res = None
+    p.join()
+    if res is None:
+        case = task[2]
+        res = [Ob('%s.%s' % (task[0], task[1]), case.get('backend', 'T3') if isinstance(case, dict) else 'T3', ERR,
+                  sig='worker-died', detail='worker process exited with code %s without a result (killed?)' % p.exitcode,
+                  case=case)]
+    return res
 
 
 def run_tasks(tasks, procs=None):
+    """Runs the tasks on a fork pool.  A worker that dies abruptly (e.g. OOM kill) breaks the pool: the unfinished tasks are
+    then re-run one process per task so that exactly the offending task is reported as a checker error and nothing hangs."""
+    from concurrent.futures import ProcessPoolExecutor, ThreadPoolExecutor, as_completed
+    from concurrent.futures.process import BrokenProcessPool
     procs = procs or int(os.environ.get('VERIF_PROCS', '16'))
     if not tasks:
         return []
     if procs <= 1 or len(tasks) == 1:
         res = [_run_task(t) for t in tasks]
-    else:
-        ctx = mp.get_context('fork')
-        with ctx.Pool(min(procs, len(tasks)), maxtasksperchild=200) as pool:
-            res = pool.map(_run_task, tasks, chunksize=1)
-    return [o for r in res for o in r]
+        return [o for r in res for o in r]
+    results = [None] * len(tasks)
+    broken = False
+    with ProcessPoolExecutor(max_workers=min(procs, len(tasks)), mp_context=mp.get_context('fork'),
+                             initializer=_init_worker) as ex:
+        futs = {ex.submit(_run_task, t): i for i, t in enumerate(tasks)}
+        for f in as_completed(futs):
+            i = futs[f]
+            try:
+                results[i] = f.result()
+            except BrokenProcessPool:
+                broken = True
+            except Exception:
+                case = tasks[i][2]
+                results[i] = [Ob('%s.%s' % (tasks[i][0], tasks[i][1]), 'T3', ERR, sig='crash',
+                                 detail=traceback.format_exc()[-3000:], case=case)]
+    pending = [i for i, r in enumerate(results) if r is None]
+    if pending:
+        print('pool broken=%s: re-running %d unfinished task(s) in isolated processes' % (broken, len(pending)), file=sys.stderr)
+        with ThreadPoolExecutor(max_workers=min(procs, len(pending))) as tp:
+            for i, r in zip(pending, tp.map(lambda i: _run_isolated(tasks[i]), pending)):
+                results[i] = r
+    return [o for r in results for o in r]
 
 
 # ----------------------------------------------------------------------------------------------------------------------
